@@ -292,7 +292,15 @@ func checkScopeMiddleware(w *World, r *Report, m string, p *packages.Package) {
 			}
 		}
 		if call != nil {
-			if t := pkgHelper(call); t != nil && t.Decl.Recv == nil && len(csIn(t)) > 0 {
+			recvOK := func(t *FuncInfo) bool {
+				if t.Decl.Recv == nil {
+					return true
+				}
+				// a method of the configuration: cfg.serveScoped(provider, next, w, r)
+				rcv, _, isM := methodCall(call)
+				return isM && len(t.Decl.Recv.List[0].Names) == 1 && f.cfg != nil && objOf(info, rcv) == f.cfg
+			}
+			if t := pkgHelper(call); t != nil && recvOK(t) && len(csIn(t)) > 0 {
 				allIdents := true
 				for _, a := range call.Args {
 					if objOf(info, a) == nil {
@@ -322,6 +330,11 @@ func checkScopeMiddleware(w *World, r *Report, m string, p *packages.Package) {
 							}
 							k++
 						}
+					}
+					if t.Decl.Recv != nil {
+						ro := info.Defs[t.Decl.Recv.List[0].Names[0]]
+						f.cfg = ro
+						f.outer[ro] = true
 					}
 					f.params = newParams
 					f.lit = &ast.FuncLit{Type: t.Decl.Type, Body: t.Decl.Body}
@@ -1317,10 +1330,16 @@ func checkHandle(w *World, r *Report, m string, p *packages.Package) {
 				}
 				// a private lookup helper of the integration: scope, ok := lookupScope(c)
 				if cal != nil && cal.Pkg() == p.Types && !cal.Exported() && len(as.Lhs) == 2 {
-					if t := w.Decls[cal]; t != nil && assertsScopeChecked(info, t) && returnsTrueOnlyAfterAssertion(info, t) {
+					gcal := cal
+					if o := cal.Origin(); o != nil {
+						gcal = o
+					}
+					scopeTypeArg = typeArgOfCall(info, rhs)
+					if t := w.Decls[gcal]; t != nil && assertsScopeChecked(info, t) && returnsTrueOnlyAfterAssertion(info, t) {
 						scopeObj, okObj = objOf(info, as.Lhs[0]), objOf(info, as.Lhs[1])
 						r.Analysed(t)
 					}
+					scopeTypeArg = nil
 				}
 				if cal != nil && cal.Pkg() != nil && cal.Pkg().Path() == modPath && len(as.Lhs) == 2 {
 					switch {
@@ -1526,6 +1545,24 @@ func checkHandle(w *World, r *Report, m string, p *packages.Package) {
 
 // assertsScopeChecked: the function obtains its result through a comma-ok type
 // assertion to godi.Scope of a value read with Locals, returning nil otherwise.
+// scopeTypeArg: while a generic lookup helper (local[T](c, key) (T, bool)) is
+// judged for one call site, the type argument of that call.
+var scopeTypeArg types.Type
+
+// isScopeType: godi.Scope, or the type parameter instantiated with it at the call being judged.
+func isScopeType(t types.Type) bool {
+	if t == nil {
+		return false
+	}
+	if isNamedType(t, modPath, "Scope") {
+		return true
+	}
+	if _, isTP := t.(*types.TypeParam); isTP && scopeTypeArg != nil && isNamedType(scopeTypeArg, modPath, "Scope") {
+		return true
+	}
+	return false
+}
+
 func assertsScopeChecked(info *types.Info, t *FuncInfo) bool {
 	locals, asserted := false, false
 	ast.Inspect(t.Decl.Body, func(x ast.Node) bool {
@@ -1537,7 +1574,7 @@ func assertsScopeChecked(info *types.Info, t *FuncInfo) bool {
 		case *ast.AssignStmt:
 			if len(s.Lhs) == 2 && len(s.Rhs) == 1 {
 				if ta, ok := unparen(s.Rhs[0]).(*ast.TypeAssertExpr); ok && ta.Type != nil {
-					if tv, ok := info.Types[ta.Type]; ok && isNamedType(tv.Type, modPath, "Scope") {
+					if tv, ok := info.Types[ta.Type]; ok && isScopeType(tv.Type) {
 						asserted = true
 					}
 				}
@@ -1553,7 +1590,7 @@ func assertsScopeChecked(info *types.Info, t *FuncInfo) bool {
 // is control dependent on the ok of the assertion that bound x.
 func returnsTrueOnlyAfterAssertion(info *types.Info, t *FuncInfo) bool {
 	sig := t.Obj.Type().(*types.Signature)
-	if sig.Results().Len() != 2 || !isNamedType(sig.Results().At(0).Type(), modPath, "Scope") {
+	if sig.Results().Len() != 2 || !isScopeType(sig.Results().At(0).Type()) {
 		return false
 	}
 	okOf := map[types.Object]types.Object{} // asserted value -> its ok
